@@ -342,6 +342,49 @@ _verdict(tb != ta and sol.states[-1][0] == 0.0, span=tb - ta, final_state=float(
             chk.unknown(oid, v)
 
 
+def helper_contracts(chk):
+    """(5) the step-size helpers satisfy, for all real inputs, the contracts the driver skeleton relies on."""
+    import hiten.algorithms.integrators.utils as U
+    from harness.common import And
+    chk.encode(U._clamp_step, U._adjust_step_to_endpoint, U._select_initial_step, U._pi_accept_factor, U._pi_reject_factor, U._error_scale)
+    h, hmax, hmin, t, te, d0, d1, en, ep, rtol, atol, ya, yb = W.vars('hh hmax hmin tt tend d0 d1 errn errp rtol atol ya yb')
+    lo, hi = Fraction(1, 5), 10
+
+    def run(name, pre, fn, goal_fn):
+        ex = Explorer(max_paths=500)
+        with explore.activate(ex):
+            for c in pre():
+                ex.assume(c)
+        paths = ex.run(fn)
+        chk.absorb(ex)
+        bad = None
+        for p in paths:
+            if p.exc is not None:
+                bad = ('raised %r' % (p.exc,), None)
+                break
+            with explore.activate(ex):
+                goals = goal_fn(p.value)
+            v, m, k = ex.prove_all(p, goals)
+            if v != 'unsat':
+                bad = ('goal %d: %s' % (k, v), m)
+                break
+        oid = 'C02/(5)helper/%s' % name
+        if bad is None:
+            chk.ok(oid, '%d paths, contract holds on each' % len(paths))
+        else:
+            chk.fail(oid, '%s at %s' % (bad[0], fmt_env(model_to_env(bad[1])) if bad[1] is not None else ''), None, model_to_env(bad[1]) if bad[1] is not None else None)
+
+    run('_clamp_step in [min,max]', lambda: [hmin <= hmax], lambda: U._clamp_step(h, hmax, hmin), lambda r: [Sym.lift(r) >= hmin, Sym.lift(r) <= hmax])
+    run('_adjust_step_to_endpoint never passes the end', lambda: [t < te, h > 0], lambda: U._adjust_step_to_endpoint(t, h, te),
+        lambda r: [Sym.lift(r) > 0, (t + r) <= te, Sym.lift(r) <= h])
+    run('_select_initial_step in [min,max]', lambda: [hmin <= hmax, hmin > 0, d0 >= 0, d1 >= 0], lambda: U._select_initial_step(d0, d1, hmin, hmax),
+        lambda r: [Sym.lift(r) >= hmin, Sym.lift(r) <= hmax])
+    run('_pi_accept_factor in [0.2,10]', lambda: [en >= 0], lambda: U._pi_accept_factor(en, ep, 5), lambda r: [Sym.lift(r) >= lo, Sym.lift(r) <= hi])
+    run('_pi_reject_factor in [0.2,10]', lambda: [], lambda: U._pi_reject_factor(en, 5), lambda r: [Sym.lift(r) >= lo, Sym.lift(r) <= hi])
+    run('_error_scale > 0', lambda: [atol > 0, rtol >= 0], lambda: U._error_scale(np.array([ya]), np.array([yb]), rtol, atol),
+        lambda r: [Sym.lift(r[0]) >= atol, Sym.lift(r[0]) >= atol + rtol * ya, Sym.lift(r[0]) >= atol - rtol * ya, Sym.lift(r[0]) >= atol + rtol * yb, Sym.lift(r[0]) >= atol - rtol * yb])
+
+
 def main():
     chk = Check(PID)
     import hiten.algorithms.integrators.rk as rkmod
@@ -352,7 +395,7 @@ def main():
                rkmod._FixedStepRK._integrate_fixed_rk, rkmod.RungeKutta.__new__, rkmod.FixedRK.__new__, rkmod.AdaptiveRK.__new__)
     chk.bound(trees='all rooted trees up to order 8 (200 trees): complete for the declared orders', h='symbolic in (0,1]', theta='symbolic in [0,1]',
               eps='1e-13 on the weighted sum of coefficient residuals (the tables are decimal/rational approximations)',
-              driver='fixed-step driver: 3-node non-uniform grid; adaptive drivers: not unrolled here (see C10)')
+              driver='fixed-step driver: 3-node non-uniform grid; adaptive driver loops unwound to 2 kernel calls with kernels/controllers uninterpreted (contracts discharged on the real helpers)')
     chk.assume('tableau entries are read as the simplest rational that rounds to the stored double (else its shortest decimal)',
                'f is an arbitrary smooth vector field: elementary differentials are independent, so coefficients are compared tree by tree')
     chk.trust('B-series theorem (Butcher; Hairer-Norsett-Wanner II.2): order p for every smooth f  <=>  a(t) = 1/gamma(t) for all |t| <= p',
@@ -372,6 +415,10 @@ def main():
     hermite_dense(chk, ex, rkmod, fixed, h, theta)
     driver_chain(chk, ex, rkmod)
     zero_span(chk, rkmod)
+    helper_contracts(chk)
+    from harness.C10 import adaptive_skeleton
+    for scheme in ('rk45', 'dop853'):
+        adaptive_skeleton(chk, 'C02/(5)', scheme, False, 2, 300)
     chk.absorb(ex)
     chk.note('B-series part: %.1f s' % (time.time() - t_start))
     # translator validation: one compiled step of every scheme on y' = y^2 + t  vs the same step in exact rationals
